@@ -18,7 +18,7 @@ RULE = (
     "trees over {unary -, unary ~, *, +, -, <<, >>, &, |}: every tree shape with <=3 operator nodes (thorough; quick: <=2 plus a seeded third of the "
     "3-node shapes) over a rotating boundary operand pool, plus Hypothesis trees up to 12 leaves with literals in decimal/0x/0X-digits/0b, identifiers bound "
     "to :=, = and labels, redundant parentheses and random spacing.  The tree is evaluated by vlib/model/expr.py and its minimal-parenthesis rendering by a816 in: "
-    "eval_expression_str, .dl (72 bits via >>24/>>48), := and = definitions, lda.w #/jmp.l operands, macro argument, .if, .for bound, and inside a macro body whose parameters are the expression's identifiers bound late while the enclosing scope defines the same names with other values (data directive and nested macro argument).  "
+    "eval_expression_str, .dl (72 bits via >>24/>>48), := and = definitions, lda.w #/jmp.l operands, macro argument, .if, .for bound, and inside a macro body whose parameters are the expression's identifiers bound late while the enclosing scope defines the same names with other values (data directive and nested macro argument), and twice around a re-assignment of one of its `:=` symbols.  "
     "Non-trivial = >=2 distinct precedence levels, or a unary operator next to a binary one, or stacked unaries, or a redundant parenthesis; distinct by case hash."
 )
 LEVEL_TEXT = ("Differential exploration against an independent evaluator: the operator-combination space up to three operators is enumerated systematically, deeper trees are sampled; "
@@ -237,6 +237,19 @@ def run_case(case) -> Outcome:
                 out.bad(f"late-params:rejected:{crash_sig(res)}", case, f"expression `{text}` over late-bound macro parameters rejected: {res['status']} {res['exc']} {res.failure_text[:200]}\n{body}")
             elif _flat(res) != _le(value, 3) + _le(value, 3) + _le(value >> 24, 3):
                 fail("late-params", "value", f"emitted {_flat(res).hex()} expected {(_le(value, 3) + _le(value, 3) + _le(value >> 24, 3)).hex()}\n{body}")
+    if directive_ok and eager_ok and ids and "lb_a" not in ids:
+        # a := symbol of the expression is assigned again between two uses of the same text (a running counter): what is
+        # evaluated while the program is expanded (macro arguments, := definitions) sees the value at that point
+        n0 = sorted(ids)[0]
+        env2 = dict(env)
+        env2[n0] = env[n0] + 3
+        try:
+            value2 = X.evaluate(tree, env2)
+        except X.Undefined:
+            value2 = None
+        if value2 is not None:
+            asm("reassigned", f".macro m_q(p_a) {{\n.dl p_a, p_a>>24\n}}\nm_q({text})\n{n0} := 0x{env2[n0]:x}\nm_q({text})\nk_z := {text}\n.dl k_z\n",
+                _le(value, 3) + _le(value >> 24, 3) + _le(value2, 3) + _le(value2 >> 24, 3) + _le(value2, 3))
     asm("imm", f"lda.w #{text}\n", b"\xa9" + _le(value, 2))
     if tree[0] != "par":
         asm("operand", f"jmp.l {text}\n", b"\x5c" + _le(value, 3)) if 0 <= value < 1 << 24 else asm("operand", f"lda.w {text}\n", b"\xad" + _le(value, 2))
